@@ -167,7 +167,8 @@ class C17(Prop):
         "compare_spec", "process_orf_spec", "translation_out_of_alphabet_faults", "short_windows",
         "reverse_strand_windows", "windowed_eq_full_length", "workstate_options", "six_frame_translation", "complement_closed",
         "short_sequences_ignored", "strand_leaves_idle", "translation_total", "initiator_total", "empty_rows", "alt_code_table_spec",
-        "file_numbering", "windowed_file_eq_full_length")]
+        "file_numbering", "windowed_file_eq_full_length",
+        "set_after_any_history", "set_resets_builtin", "policy_setters_overwrite")]
     claimed = True
     technique = ("Lean 4 proof: built-in tables regenerated from the tree = hand-pinned NCBI tables by `decide`; general theorems (any table, any "
                  "degeneracy matrix) that the triple loop computes the shared amino acid / all-initiators; ORF machine modelled and tied by exact "
@@ -291,6 +292,13 @@ class C17(Prop):
             orf("CTGAAATGA", init="aug", using=2), orf("AAACTGAAATGACC", init="table", using=1, cuts="3,1,1,1,1,1,1,1,1,1,1,1"),
             orf("ATGAAATAAATGCCCTAGG", cuts="3,3,3,3,3,4"), orf("ATGAAATAAATGCCCTAGG", cuts="4,5,10"), orf("TTATTTCAT", strand="c"),
             orf("ATGRAYTAR", minlen=1), orf("ATGTRATAA", minlen=1), orf("ATG-AATAA", minlen=1)]})
+        # histories on one object: for every table, every other table set before it, policy setters in between, the SAME table re-selected
+        ops = []
+        for t in IDS:
+            ops.append(self.hist_op(None, ["a", "s%d" % t, "a", "s%d" % t, "u", "s%d" % t, "u", "a", "s%d" % t, "s99", "s%d" % t], nt=""))
+            ops.append(self.hist_op(None, [x for t2 in IDS for x in ("s%d" % t2, "a", "s%d" % t)], nt=""))
+            ops.append(self.hist_op(None, ["u", "s%d" % t, "a", "s%d" % t], nt=" nt=rna"))
+        out.append({"name": "histories", "sticky": 0, "ops": ops})
         # GetTranslation / IsInitiator on codes outside the alphabet that the loop never dereferences (translation_total: a gap, `*` or `~`
         # in front ends the loop at once): every byte value behind an empty first code, and behind an empty second code
         ops = []
@@ -490,6 +498,29 @@ class C17(Prop):
             seqs.append(("s%d" % i, rng.choice(["", "d%d" % i, "two words"]), dna))
         return self.xlate_op(rng, tid, seqs)
 
+    def hist_op(self, rng, toks=None, nt=None):
+        """a history of calls on ONE gencode object: s<id> = Set (known and unknown ids, the same id again after a policy setter),
+        a = SetInitiatorAny, u = SetInitiatorOnlyAUG, r<k> = Read of an NCBI text (valid / damaged), object printed after every step"""
+        reads = {}
+        if toks is None:
+            toks = []
+            cur = 1
+            for _ in range(rng.randrange(1, 11)):
+                r = rng.random()
+                if r < 0.2: toks.append("s%d" % cur)                               # the SAME table again
+                elif r < 0.45: cur = rng.choice(IDS); toks.append("s%d" % cur)
+                elif r < 0.52: toks.append("s%d" % rng.choice([0, 7, 8, 15, 17, 26, 33, -1, 100]))
+                elif r < 0.68: toks.append("a")
+                elif r < 0.84: toks.append("u")
+                else:
+                    k = len(reads); tid = rng.choice(IDS)
+                    if rng.random() < 0.7: key = "r%d" % k; reads[key] = self.rand_ncbi_text(rng, tid)
+                    else: key = "m%d" % k; reads[key] = self.mutated_ncbi_text(rng, tid)          # byte-damaged: no independent oracle
+                    toks.append(key)
+            if rng.random() < 0.7: toks.append("s%d" % rng.choice([cur, cur, rng.choice(IDS)]))
+        if nt is None: nt = " nt=rna" if rng.random() < 0.2 else ""
+        return "hist ops=%s%s%s" % (",".join(toks), "".join(" %s=%s" % (k, v.hex() or "-") for k, v in reads.items()), nt)
+
     def rand_cuts(self, rng, L):
         if L < 3: return "-"
         r = rng.random()
@@ -542,6 +573,8 @@ class C17(Prop):
                 ops += self.boundary_orfs(rng, tid)
             if rng.random() < 0.25:
                 ops.append(self.xlate_cases(rng, tid, i % 25 == 0))
+            if rng.random() < 0.3:
+                ops.append(self.hist_op(rng))
             if rng.random() < 0.1:
                 ops.append("decode d=%d%s" % (rng.choice([rng.randrange(0, 64), rng.randrange(0, 304)]), rng.choice(["", " nt=rna"])))
                 ops.append("compare id=%d init=%s id2=%d init2=%s meta=%d%s" % (tid, rng.choice(["table", "any", "aug"]), rng.choice(IDS + [tid, tid]),
@@ -597,6 +630,36 @@ class C17(Prop):
                         and (int(d.get("meta", 0)) == 0 or t1 == t2))
                 if l != ("ok same" if same else "ok differ"):
                     return Failure("monitor", "esl_gencode_Compare(table %d/%s, table %d/%s, meta=%s) answered %r" % (t1, d.get("init"), t2, d.get("init2"), d.get("meta"), l[:40]))
+                continue
+            if name == "hist":
+                cur = (list(pinned_arrays(1, "table")[0]), list(pinned_arrays(1, "table")[1]), 1)
+                steps = l.split()[1:]; toks = [t for t in d["ops"].split(",") if t]
+                if not l.startswith("ok") or len(steps) != len(toks):
+                    return Failure("monitor", "history: %d steps answered for %d calls: %r" % (len(steps), len(toks), l[:60]))
+                for k, (t, ans) in enumerate(zip(toks, steps)):
+                    st, gid, _desc, gb, gi = ans.split(":")
+                    want_st = "ok"
+                    if t[0] == "s":
+                        tid = int(t[1:])
+                        if tid in PINNED: b_, i_ = pinned_arrays(tid, "table"); cur = (list(b_), list(i_), tid)
+                        else: want_st = "enotfound"
+                    elif t == "a": cur = (cur[0], [1 if x < 20 else 0 for x in cur[0]], cur[2])
+                    elif t == "u": cur = (cur[0], [1 if c == 14 else 0 for c in range(64)], cur[2])
+                    elif t[0] == "r":
+                        got = py_read(unhex(d[t]))
+                        if got is None: want_st = "eformat"
+                        else: cur = (list(got[0]), list(got[1]), -1)
+                    else:   # byte-damaged text: no independent oracle for the regular-expression corner cases (the model is compared exactly);
+                            # eslOK must bring a genetic code that replaces the object, anything else must leave the object as it was
+                        if st == "ok":
+                            bs = list(unhex(gb))
+                            if len(bs) != 64 or STOP not in bs or any(x not in bs for x in range(20)) or any(x >= 20 and x != STOP for x in bs):
+                                return Failure("monitor", "history %s: call %d: esl_gencode_Read accepted a table that is not a genetic code" % (d["ops"], k + 1))
+                            cur = (bs, [1 if x else 0 for x in unhex(gi)], -1)
+                        else: want_st = "eformat"
+                    if st != want_st or int(gid) != cur[2] or list(unhex(gb)) != cur[0] or [1 if x else 0 for x in unhex(gi)] != cur[1]:
+                        return Failure("monitor", "history %s: after call %d (%s) the object is table %s / status %s with %d initiators; a fresh object would be table %d / %s with %d initiators%s" % (
+                            d["ops"], k + 1, t, gid, st, sum(1 for x in unhex(gi) if x), cur[2], want_st, sum(cur[1]), "" if list(unhex(gb)) == cur[0] else " (translations differ)"))
                 continue
             if name == "xlate":
                 if int(d.get("m", 0)) and int(d.get("M", 0)):
